@@ -36,6 +36,8 @@ pub mod sql;
 pub mod synthetic_data;
 pub mod types;
 pub mod visitor;
+#[cfg(qrlew_verif)]
+pub mod verif;
 
 pub use builder::{Ready, With, WithContext, WithIterator, WithoutContext};
 pub use data_type::{value::Value, DataType};
